@@ -487,6 +487,7 @@ func spec_steady(h *Session, p []byte, s specFrame) bool {
 }
 
 //verif:props C01 C02 C08 C10 C16
+//verif:timeout 60s
 func verif_contract_Session_Parse(h *Session, p []byte) (Frame, error) {
 	vRequires(spec_session_wf(h) && spec_icmptable_ok())
 	vStrictLen()
